@@ -373,7 +373,8 @@ func (dslVarFilterContext) Type(stack *quasigo.ValueStack) {
 func (native dslVarFilterContext) SizeOf(stack *quasigo.ValueStack) {
 	typ := stack.Pop().(types.Type)
 	params := stack.Pop().(*filterParams)
-	stack.PushInt(int(params.ctx.Sizes.Sizeof(typ)))
+	size, _ := typeSize(params.ctx.Sizes, typ)
+	stack.PushInt(int(size))
 }
 
 func (native dslVarFilterContext) GetType(stack *quasigo.ValueStack) {
